@@ -267,6 +267,12 @@ def enumerate_program(dc, sc, res, prog_id, spec, label, stride=1, offset=0):
         how, status, recs = crash.run_forked(dc, d, kind, SETTINGS, program, k, log, maxlen)
         if os.path.exists(log):
             os.unlink(log)
+        if how == 'exited' and any(r.get('finished') for r in recs):
+            # value files get random names, so the number of mkdir gates varies slightly between runs of one
+            # program: this run had fewer gates than the dry run and simply finished
+            res.count('kill_points_beyond_end_of_run')
+            sc.drop(d)
+            continue
         if how != 'killed':
             res.inconclusive.append('%s: child at gate %d ended as %s' % (label, k, how))
             sc.drop(d)
